@@ -243,3 +243,675 @@ Print Assumptions C19_to_f32_debug_assert_refuted.
 Theorem C19_debug_release_agree_outside_class : forall p a, wide p a = false -> into_ieee_asis true p a = into_ieee_asis false p a.
 Proof. exact into_ieee_debug_release_agree. Qed.
 Print Assumptions C19_debug_release_agree_outside_class.
+
+(** ================================================================================================
+    Deepening round 3.  (1) word-size independence of every public operation family, as corollaries of the
+    word-level theorems of C01 / C02 / C09 / C07 / C13 / C12; (2) the word-level runs the oracle evaluates at the word
+    size of the answering build; (3) std / no_std: results that use a log2 estimate only through its contract;
+    (4) the human-readable serde forms.  [contract_2by1 w d] is what C02 proves of num-modular's div_rem_2by1. *)
+From Dashu Require Import Int.RingSpec Int.RingOps Int.RingOpsProofs Int.RingDispatchProofs Int.RingTop Int.RingMulW Int.RingOpsW Int.DivContracts Int.DivSrcInst Int.DivWordInst.
+From Dashu Require Import Int.BitsSpec Int.BitsKernels Int.BitsKernelsBase Int.BitsSignedProofs Int.IoSpec Int.IoModel Int.ModRingModel Int.GrlSpec Int.GrlModel Int.GrlKsqrt.
+From Dashu Require Import Float.Contract Float.FloatOrdModel Float.AddModel Float.TextIoSpec Float.TextIoModel Conv.ConvSpec Conv.ConvModel.
+From Dashu Require Import Serde.WordSizeKernels Serde.WordSizeKernels2 Serde.WordRuns Serde.EstimatorIndependence Serde.JsonModel Serde.JsonProofs.
+
+(** mul::multiply over the word-level kernels (schoolbook, Karatsuba, the slice-by-slice Toom-3), thresholds of the source counted in words *)
+Theorem C19_multiply_word_level_ws_independent :
+  forall w1 w2 : Z,
+  8 <= w1 ->
+  8 <= w2 ->
+  forall d1 d2 : Z -> Z -> Z * Z,
+  contract_2by1 w1 d1 ->
+  contract_2by1 w2 d2 ->
+  forall a1 b1 a2 b2 : list Z,
+  wf w1 a1 ->
+  wf w1 b1 ->
+  wf w2 a2 ->
+  wf w2 b2 ->
+  value w1 a1 = value w2 a2 ->
+  value w1 b1 = value w2 b2 ->
+  exists r1 r2 : list Z,
+  multiply_w w1 d1 src_T_simple src_T_kara src_CHUNK a1 b1 = Ok r1 /\
+  multiply_w w2 d2 src_T_simple src_T_kara src_CHUNK a2 b2 = Ok r2 /\ value w1 r1 = value w2 r2.
+Proof. exact multiply_w_ws_independent. Qed.
+Print Assumptions C19_multiply_word_level_ws_independent.
+
+(** the accumulate-with-sign kernel *)
+Theorem C19_add_signed_mul_word_level_ws_independent :
+  forall w1 w2 : Z,
+  8 <= w1 ->
+  8 <= w2 ->
+  forall d1 d2 : Z -> Z -> Z * Z,
+  contract_2by1 w1 d1 ->
+  contract_2by1 w2 d2 ->
+  forall (c1 a1 b1 c2 a2 b2 : list Z) (s : sign),
+  wf w1 c1 /\ wf w1 a1 /\ wf w1 b1 /\ length c1 = (length a1 + length b1)%nat ->
+  wf w2 c2 /\ wf w2 a2 /\ wf w2 b2 /\ length c2 = (length a2 + length b2)%nat ->
+  value w1 c1 = value w2 c2 ->
+  value w1 a1 = value w2 a2 ->
+  value w1 b1 = value w2 b2 ->
+  exists (r1 : list Z) (k1 : Z) (r2 : list Z) (k2 : Z),
+  add_signed_mul_w w1 d1 src_T_simple src_T_kara src_CHUNK c1 s a1 b1 = Ok (r1, k1) /\
+  add_signed_mul_w w2 d2 src_T_simple src_T_kara src_CHUNK c2 s a2 b2 = Ok (r2, k2) /\
+  value w1 r1 + k1 * B w1 ^ len c1 = value w2 r2 + k2 * B w2 ^ len c2.
+Proof. exact add_signed_mul_w_ws_independent. Qed.
+Print Assumptions C19_add_signed_mul_word_level_ws_independent.
+
+(** sqr::sqr *)
+Theorem C19_sqr_kernel_ws_independent :
+  forall w1 w2 : Z,
+  8 <= w1 ->
+  8 <= w2 ->
+  forall d1 d2 : Z -> Z -> Z * Z,
+  contract_2by1 w1 d1 ->
+  contract_2by1 w2 d2 ->
+  forall a1 a2 : list Z,
+  wf w1 a1 ->
+  wf w2 a2 ->
+  value w1 a1 = value w2 a2 ->
+  exists r1 r2 : list Z,
+  sqr_w w1 d1 src_T_simple src_T_kara src_SQR a1 = Ok r1 /\
+  sqr_w w2 d2 src_T_simple src_T_kara src_SQR a2 = Ok r2 /\ value w1 r1 = value w2 r2.
+Proof. exact sqr_w_ws_independent. Qed.
+Print Assumptions C19_sqr_kernel_ws_independent.
+
+(** UBig * UBig over typed representations (inline up to two WORDS) *)
+Theorem C19_ubig_mul_ws_independent :
+  forall w1 w2 : Z,
+  8 <= w1 ->
+  8 <= w2 ->
+  forall d1 d2 : Z -> Z -> Z * Z,
+  contract_2by1 w1 d1 ->
+  contract_2by1 w2 d2 ->
+  forall x1 y1 x2 y2 : trepr,
+  RingOpsMulProofs.tok w1 x1 ->
+  RingOpsMulProofs.tok w1 y1 ->
+  RingOpsMulProofs.tok w2 x2 ->
+  RingOpsMulProofs.tok w2 y2 ->
+  repr_value w1 x1 = repr_value w2 x2 ->
+  repr_value w1 y1 = repr_value w2 y2 ->
+  exists r1 r2 : trepr,
+  repr_mul_w w1 d1 src_T_simple src_T_kara src_CHUNK src_SQR x1 y1 = Ok r1 /\
+  repr_mul_w w2 d2 src_T_simple src_T_kara src_CHUNK src_SQR x2 y2 = Ok r2 /\ repr_value w1 r1 = repr_value w2 r2.
+Proof. exact ubig_mul_ws_independent. Qed.
+Print Assumptions C19_ubig_mul_ws_independent.
+
+(** IBig * IBig *)
+Theorem C19_ibig_mul_ws_independent :
+  forall w1 w2 : Z,
+  8 <= w1 ->
+  8 <= w2 ->
+  forall d1 d2 : Z -> Z -> Z * Z,
+  contract_2by1 w1 d1 ->
+  contract_2by1 w2 d2 ->
+  forall (s0 s1 : sign) (x1 y1 x2 y2 : trepr),
+  RingOpsMulProofs.tok w1 x1 ->
+  RingOpsMulProofs.tok w1 y1 ->
+  RingOpsMulProofs.tok w2 x2 ->
+  RingOpsMulProofs.tok w2 y2 ->
+  repr_value w1 x1 = repr_value w2 x2 ->
+  repr_value w1 y1 = repr_value w2 y2 ->
+  exists r1 r2 : sign * trepr,
+  ibig_mul_asis_w w1 d1 src_T_simple src_T_kara src_CHUNK src_SQR s0 x1 s1 y1 = Ok r1 /\
+  ibig_mul_asis_w w2 d2 src_T_simple src_T_kara src_CHUNK src_SQR s0 x2 s1 y2 = Ok r2 /\ srepr_value w1 r1 = srepr_value w2 r2.
+Proof. exact ibig_mul_ws_independent. Qed.
+Print Assumptions C19_ibig_mul_ws_independent.
+
+(** sqr() *)
+Theorem C19_sqr_ws_independent :
+  forall w1 w2 : Z,
+  8 <= w1 ->
+  8 <= w2 ->
+  forall d1 d2 : Z -> Z -> Z * Z,
+  contract_2by1 w1 d1 ->
+  contract_2by1 w2 d2 ->
+  forall x1 x2 : trepr,
+  RingOpsMulProofs.tok w1 x1 ->
+  RingOpsMulProofs.tok w2 x2 ->
+  repr_value w1 x1 = repr_value w2 x2 ->
+  exists r1 r2 : trepr,
+  repr_sqr_w w1 d1 src_T_simple src_T_kara src_SQR x1 = Ok r1 /\
+  repr_sqr_w w2 d2 src_T_simple src_T_kara src_SQR x2 = Ok r2 /\ repr_value w1 r1 = repr_value w2 r2.
+Proof. exact sqr_ws_independent. Qed.
+Print Assumptions C19_sqr_ws_independent.
+
+(** cubic() *)
+Theorem C19_ibig_cubic_ws_independent :
+  forall w1 w2 : Z,
+  8 <= w1 ->
+  8 <= w2 ->
+  forall d1 d2 : Z -> Z -> Z * Z,
+  contract_2by1 w1 d1 ->
+  contract_2by1 w2 d2 ->
+  forall (s : sign) (x1 x2 : trepr),
+  RingOpsMulProofs.tok w1 x1 ->
+  RingOpsMulProofs.tok w2 x2 ->
+  repr_value w1 x1 = repr_value w2 x2 ->
+  exists r1 r2 : sign * trepr,
+  ibig_cubic_asis_w w1 d1 src_T_simple src_T_kara src_CHUNK src_SQR s x1 = Ok r1 /\
+  ibig_cubic_asis_w w2 d2 src_T_simple src_T_kara src_CHUNK src_SQR s x2 = Ok r2 /\ srepr_value w1 r1 = srepr_value w2 r2.
+Proof. exact ibig_cubic_ws_independent. Qed.
+Print Assumptions C19_ibig_cubic_ws_independent.
+
+(** UBig + UBig, any two ownership forms *)
+Theorem C19_ubig_add_ws_independent :
+  forall w1 w2 : Z,
+  8 <= w1 ->
+  8 <= w2 ->
+  forall (o1 o2 : own) (x1 y1 x2 y2 : trepr),
+  twf w1 x1 ->
+  twf w1 y1 ->
+  twf w2 x2 ->
+  twf w2 y2 ->
+  repr_value w1 x1 = repr_value w2 x2 ->
+  repr_value w1 y1 = repr_value w2 y2 -> repr_value w1 (repr_add w1 o1 x1 y1) = repr_value w2 (repr_add w2 o2 x2 y2).
+Proof. exact ubig_add_ws_independent. Qed.
+Print Assumptions C19_ubig_add_ws_independent.
+
+(** UBig - UBig: the same value or the same documented panic *)
+Theorem C19_ubig_sub_ws_independent :
+  forall w1 w2 : Z,
+  8 <= w1 ->
+  8 <= w2 ->
+  forall (o1 o2 : own) (x1 y1 x2 y2 : trepr),
+  twf w1 x1 ->
+  twf w1 y1 ->
+  twf w2 x2 ->
+  twf w2 y2 ->
+  repr_value w1 x1 = repr_value w2 x2 ->
+  repr_value w1 y1 = repr_value w2 y2 ->
+  match repr_sub w1 o1 x1 y1 with
+  | Ok r1 => match repr_sub w2 o2 x2 y2 with
+  | Ok r2 => repr_value w1 r1 = repr_value w2 r2
+  | _ => False
+  end
+  | Panic NegativeUBig => match repr_sub w2 o2 x2 y2 with
+  | Panic NegativeUBig => True
+  | _ => False
+  end
+  | _ => False
+  end.
+Proof. exact ubig_sub_ws_independent. Qed.
+Print Assumptions C19_ubig_sub_ws_independent.
+
+(** IBig + IBig and IBig - IBig *)
+Theorem C19_ibig_add_sub_ws_independent :
+  forall w1 w2 : Z,
+  8 <= w1 ->
+  8 <= w2 ->
+  forall (o1 o2 : own) (s0 s1 : sign) (x1 y1 x2 y2 : trepr),
+  twf w1 x1 ->
+  twf w1 y1 ->
+  twf w2 x2 ->
+  twf w2 y2 ->
+  repr_value w1 x1 = repr_value w2 x2 ->
+  repr_value w1 y1 = repr_value w2 y2 ->
+  (exists r1 r2 : sign * trepr,
+  ibig_add_asis w1 o1 s0 x1 s1 y1 = Ok r1 /\ ibig_add_asis w2 o2 s0 x2 s1 y2 = Ok r2 /\ srepr_value w1 r1 = srepr_value w2 r2) /\
+  (exists r1 r2 : sign * trepr,
+  ibig_sub_asis w1 o1 s0 x1 s1 y1 = Ok r1 /\ ibig_sub_asis w2 o2 s0 x2 s1 y2 = Ok r2 /\ srepr_value w1 r1 = srepr_value w2 r2).
+Proof. exact ibig_add_sub_ws_independent. Qed.
+Print Assumptions C19_ibig_add_sub_ws_independent.
+
+(** pow (max_exp_in_word depends on Word::BITS) *)
+Theorem C19_pow_ws_independent :
+  forall w1 w2 : Z,
+  8 <= w1 ->
+  8 <= w2 ->
+  forall (s : sign) (x1 x2 : trepr) (e : Z),
+  RingOpsMulProofs.tok w1 x1 ->
+  RingOpsMulProofs.tok w2 x2 ->
+  0 <= e ->
+  repr_value w1 x1 = repr_value w2 x2 ->
+  (exists r1 r2 : trepr,
+  ubig_pow_asis w1 src_T_simple src_T_kara src_CHUNK src_SQR x1 e = Ok r1 /\
+  ubig_pow_asis w2 src_T_simple src_T_kara src_CHUNK src_SQR x2 e = Ok r2 /\ repr_value w1 r1 = repr_value w2 r2) /\
+  (exists r1 r2 : sign * trepr,
+  ibig_pow_asis w1 src_T_simple src_T_kara src_CHUNK src_SQR s x1 e = Ok r1 /\
+  ibig_pow_asis w2 src_T_simple src_T_kara src_CHUNK src_SQR s x2 e = Ok r2 /\ srepr_value w1 r1 = srepr_value w2 r2).
+Proof. exact pow_ws_independent. Qed.
+Print Assumptions C19_pow_ws_independent.
+
+(** DivRem / Div / Rem / ConstDivisor with every kernel transcribed *)
+Theorem C19_division_ws_independent :
+  forall w1 w2 : Z,
+  8 <= w1 ->
+  8 <= w2 ->
+  forall a b : Z,
+  0 <= a ->
+  0 < b ->
+  s_repr_div_rem w1 a b = s_repr_div_rem w2 a b /\
+  s_repr_div w1 a b = s_repr_div w2 a b /\
+  s_repr_rem w1 a b = s_repr_rem w2 a b /\
+  s_const_div_rem w1 a b = s_const_div_rem w2 a b /\ s_const_rem w1 a b = s_const_rem w2 a b /\ s_repr_div_rem w1 a b = Ok (a / b, a mod b).
+Proof. exact division_ws_independent. Qed.
+Print Assumptions C19_division_ws_independent.
+
+(** & | ^ and_not of magnitudes *)
+Theorem C19_repr_bitops_ws_independent :
+  forall w1 w2 : Z,
+  0 < w1 ->
+  0 < w2 ->
+  forall (o1 o2 : bown) (a1 b1 a2 b2 : brepr),
+  brepr_ok w1 a1 ->
+  brepr_ok w1 b1 ->
+  brepr_ok w2 a2 ->
+  brepr_ok w2 b2 ->
+  bvalue w1 a1 = bvalue w2 a2 ->
+  bvalue w1 b1 = bvalue w2 b2 ->
+  bvalue w1 (repr_bitand w1 o1 a1 b1) = bvalue w2 (repr_bitand w2 o2 a2 b2) /\
+  bvalue w1 (repr_bitor w1 o1 a1 b1) = bvalue w2 (repr_bitor w2 o2 a2 b2) /\
+  bvalue w1 (repr_bitxor w1 o1 a1 b1) = bvalue w2 (repr_bitxor w2 o2 a2 b2) /\
+  bvalue w1 (repr_and_not w1 a1 b1) = bvalue w2 (repr_and_not w2 a2 b2).
+Proof. exact repr_bitops_ws_independent. Qed.
+Print Assumptions C19_repr_bitops_ws_independent.
+
+(** & | ^ of IBig *)
+Theorem C19_ibig_bitops_ws_independent :
+  forall w1 w2 : Z,
+  0 < w1 ->
+  0 < w2 ->
+  forall (o1 o2 : bown) (s0 s1 : sign) (a1 b1 a2 b2 : brepr),
+  mag_ok w1 s0 a1 ->
+  mag_ok w1 s1 b1 ->
+  mag_ok w2 s0 a2 ->
+  mag_ok w2 s1 b2 ->
+  bvalue w1 a1 = bvalue w2 a2 ->
+  bvalue w1 b1 = bvalue w2 b2 ->
+  ibig_bitand_asis w1 o1 s0 a1 s1 b1 = ibig_bitand_asis w2 o2 s0 a2 s1 b2 /\
+  ibig_bitor_asis w1 o1 s0 a1 s1 b1 = ibig_bitor_asis w2 o2 s0 a2 s1 b2 /\
+  ibig_bitxor_asis w1 o1 s0 a1 s1 b1 = ibig_bitxor_asis w2 o2 s0 a2 s1 b2.
+Proof. exact ibig_bitops_ws_independent. Qed.
+Print Assumptions C19_ibig_bitops_ws_independent.
+
+(** << >> of magnitudes and of IBig *)
+Theorem C19_shifts_ws_independent :
+  forall w1 w2 : Z,
+  0 < w1 ->
+  0 < w2 ->
+  forall (cap1 cap2 : bool) (s : sign) (r1 r2 : brepr) (n : Z),
+  0 <= n ->
+  brepr_ok w1 r1 ->
+  brepr_ok w2 r2 ->
+  bvalue w1 r1 = bvalue w2 r2 ->
+  bvalue w1 (repr_shl w1 cap1 r1 n) = bvalue w2 (repr_shl w2 cap2 r2 n) /\
+  bvalue w1 (repr_shr w1 r1 n) = bvalue w2 (repr_shr w2 r2 n) /\
+  ibig_shl_asis w1 s cap1 r1 n = ibig_shl_asis w2 s cap2 r2 n /\
+  ibig_shr_asis w1 s r1 n = ibig_shr_asis w2 s r2 n /\ are_low_bits_nonzero w1 r1 n = are_low_bits_nonzero w2 r2 n.
+Proof. exact shifts_ws_independent. Qed.
+Print Assumptions C19_shifts_ws_independent.
+
+(** bit_len, count_ones, trailing_zeros/ones, power-of-two tests, single bits *)
+Theorem C19_bit_queries_ws_independent :
+  forall w1 w2 : Z,
+  0 < w1 ->
+  0 < w2 ->
+  forall (r1 r2 : brepr) (n : Z),
+  0 <= n ->
+  brepr_ok w1 r1 ->
+  brepr_ok w2 r2 ->
+  bvalue w1 r1 = bvalue w2 r2 ->
+  repr_bit_len w1 r1 = repr_bit_len w2 r2 /\
+  repr_count_ones r1 = repr_count_ones r2 /\
+  repr_trailing_zeros w1 r1 = repr_trailing_zeros w2 r2 /\
+  repr_trailing_ones w1 r1 = repr_trailing_ones w2 r2 /\
+  repr_is_power_of_two r1 = repr_is_power_of_two r2 /\
+  bvalue w1 (repr_next_power_of_two w1 r1) = bvalue w2 (repr_next_power_of_two w2 r2) /\
+  repr_bit w1 r1 n = repr_bit w2 r2 n /\
+  bvalue w1 (repr_set_bit w1 r1 n) = bvalue w2 (repr_set_bit w2 r2 n) /\
+  bvalue w1 (repr_clear_bit w1 r1 n) = bvalue w2 (repr_clear_bit w2 r2 n) /\
+  bvalue w1 (repr_clear_high_bits w1 r1 n) = bvalue w2 (repr_clear_high_bits w2 r2 n).
+Proof. exact bit_queries_ws_independent. Qed.
+Print Assumptions C19_bit_queries_ws_independent.
+
+(** Display / in_radix and the three parsers *)
+Theorem C19_text_ws_independent :
+  forall w1 w2 : Z,
+  io_w_ok w1 ->
+  io_w_ok w2 ->
+  (forall (k : fkind) (f : fmtflags) (v : Z), fmt_asis w1 k f v = fmt_asis w2 k f v) /\
+  (forall (sg : bool) (r : Z) (s : list Z), from_str_radix_asis w1 sg r s = from_str_radix_asis w2 sg r s) /\
+  (forall (sg : bool) (default : Z) (s : list Z),
+  2 <= default <= 36 -> from_str_prefix_asis w1 sg default s = from_str_prefix_asis w2 sg default s).
+Proof. exact text_ws_independent. Qed.
+Print Assumptions C19_text_ws_independent.
+
+(** little/big-endian bytes and chunks, both directions *)
+Theorem C19_bytes_ws_independent :
+  forall w1 w2 : Z,
+  0 < w1 ->
+  w1 mod 8 = 0 ->
+  0 < w2 ->
+  w2 mod 8 = 0 ->
+  (forall m : Z,
+  0 <= m -> to_le_bytes_asis w1 m = to_le_bytes_asis w2 m /\ IoBytesBEModel.to_be_bytes_asis w1 m = IoBytesBEModel.to_be_bytes_asis w2 m) /\
+  (forall v : Z,
+  to_signed_le_bytes_asis w1 v = to_signed_le_bytes_asis w2 v /\
+  IoBytesBEModel.to_signed_be_bytes_asis w1 v = IoBytesBEModel.to_signed_be_bytes_asis w2 v) /\
+  (forall bs : list Z,
+  from_le_bytes_asis w1 bs = from_le_bytes_asis w2 bs /\ IoBytesBEModel.from_be_bytes_asis w1 bs = IoBytesBEModel.from_be_bytes_asis w2 bs) /\
+  (forall bs : list Z,
+  IoBytes.bytes_ok bs ->
+  from_signed_le_bytes_asis w1 bs = from_signed_le_bytes_asis w2 bs /\
+  IoBytesBEModel.from_signed_be_bytes_asis w1 bs = IoBytesBEModel.from_signed_be_bytes_asis w2 bs) /\
+  (forall v cb : Z, 0 <= v -> 0 < cb -> to_chunks_asis w1 v cb = to_chunks_asis w2 v cb) /\
+  (forall (cb : Z) (cs : list Z), 0 <= cb -> from_chunks_asis w1 cb cs = from_chunks_asis w2 cb cs).
+Proof. exact bytes_ws_independent. Qed.
+Print Assumptions C19_bytes_ws_independent.
+
+(** ConstDivisor ring: construction, reduce, multiply, residue (ring kind chosen by comparing m with 2^w, 2^2w) *)
+Theorem C19_modmul_any_word_size :
+  forall w : Z, 2 <= w -> forall m x y : Z, 1 <= m -> ws_modmul w m x y = Ok ((x * y) mod m).
+Proof. exact ws_modmul_spec. Qed.
+Print Assumptions C19_modmul_any_word_size.
+
+(** the same with pow *)
+Theorem C19_modpow_any_word_size :
+  forall w : Z, 2 <= w -> forall m x e : Z, 1 <= m -> 0 <= e -> ws_modpow w m x e = Ok (x ^ e mod m).
+Proof. exact ws_modpow_spec. Qed.
+Print Assumptions C19_modpow_any_word_size.
+
+(** hence identical in two builds *)
+Theorem C19_modular_ws_independent :
+  forall w1 w2 : Z,
+  2 <= w1 ->
+  2 <= w2 -> forall m x y e : Z, 1 <= m -> 0 <= e -> ws_modmul w1 m x y = ws_modmul w2 m x y /\ ws_modpow w1 m x e = ws_modpow w2 m x e.
+Proof. exact modular_ws_independent. Qed.
+Print Assumptions C19_modular_ws_independent.
+
+(** sqrt_rem of three or more words (Karatsuba square root) *)
+Theorem C19_sqrt_ws_independent :
+  forall w1 w2 : Z,
+  2 <= w1 ->
+  w1 mod 2 = 0 ->
+  2 <= w2 ->
+  w2 mod 2 = 0 ->
+  forall x : Z,
+  (2 ^ w1) ^ 2 <= x ->
+  (2 ^ w2) ^ 2 <= x -> sqrt_rem_large_asis w1 x = sqrt_rem_large_asis w2 x /\ sqrt_rem_large_asis w1 x = Ok (sqrt_rem_spec x).
+Proof. exact sqrt_ws_independent. Qed.
+Print Assumptions C19_sqrt_ws_independent.
+
+(** the word-level runs the oracle evaluates at the word size of the answering build: each = its specification for EVERY word size *)
+Theorem C19_run_mul :
+  forall w : Z, 8 <= w -> forall a b : Z, wr_mul w a b = Ok (a * b).
+Proof. exact wr_mul_spec. Qed.
+Print Assumptions C19_run_mul.
+
+Theorem C19_run_sqr :
+  forall w : Z, 8 <= w -> forall a : Z, wr_sqr w a = Ok (a * a).
+Proof. exact wr_sqr_spec. Qed.
+Print Assumptions C19_run_sqr.
+
+Theorem C19_run_add_sub :
+  forall w : Z, 8 <= w -> forall a b : Z, wr_add w a b = Ok (a + b) /\ wr_sub w a b = Ok (a - b).
+Proof. exact wr_add_sub_spec. Qed.
+Print Assumptions C19_run_add_sub.
+
+Theorem C19_run_pow :
+  forall w : Z, 8 <= w -> forall a e : Z, 0 <= e -> wr_pow w a e = Ok (a ^ e).
+Proof. exact wr_pow_spec. Qed.
+Print Assumptions C19_run_pow.
+
+Theorem C19_run_divrem :
+  forall w : Z, 8 <= w -> forall a b : Z, wr_divrem w a b = (if b =? 0 then Panic DivideBy0 else Ok (a ÷ b, Z.rem a b)).
+Proof. exact wr_divrem_spec. Qed.
+Print Assumptions C19_run_divrem.
+
+Theorem C19_run_bitops :
+  forall w : Z, 8 <= w -> forall a b : Z, wr_and w a b = Z.land a b /\ wr_or w a b = Z.lor a b /\ wr_xor w a b = Z.lxor a b.
+Proof. exact wr_bitops_spec. Qed.
+Print Assumptions C19_run_bitops.
+
+Theorem C19_run_shift :
+  forall w : Z, 8 <= w -> forall a n : Z, 0 <= n -> wr_shl w a n = Z.shiftl a n /\ wr_shr w a n = Z.shiftr a n.
+Proof. exact wr_shift_spec. Qed.
+Print Assumptions C19_run_shift.
+
+Theorem C19_run_queries :
+  forall w : Z,
+  8 <= w ->
+  forall a : Z, wr_bitlen w a = bit_len_spec (Z.abs a) /\ wr_tz w a = trailing_zeros_spec (Z.abs a) /\ wr_ones w a = count_ones_spec (Z.abs a).
+Proof. exact wr_queries_spec. Qed.
+Print Assumptions C19_run_queries.
+
+Theorem C19_run_text :
+  forall w : Z,
+  8 <= w ->
+  w mod 2 = 0 ->
+  (forall r v : Z, wr_tostr w r v = fmt_spec (KInRadix r) json_flags v) /\
+  (forall (r : Z) (s : list Z), wr_fromstr w r s = from_str_radix_spec true r s).
+Proof. exact wr_text_spec. Qed.
+Print Assumptions C19_run_text.
+
+Theorem C19_run_sqrt :
+  forall w : Z, 8 <= w -> w mod 2 = 0 -> forall x : Z, 0 <= x -> wr_sqrt w x = Ok (Z.sqrt x).
+Proof. exact wr_sqrt_spec. Qed.
+Print Assumptions C19_run_sqrt.
+
+(** IBig::to_f64 / to_f32: the double-word shortcut depends on DoubleWord::BITS *)
+Theorem C19_run_tofloat :
+  forall w v : Z, 32 <= w -> wr_tof64 w v = ieee_rne F64 v 1 /\ wr_tof32 w v = ieee_rne F32 v 1.
+Proof. exact wr_tofloat_spec. Qed.
+Print Assumptions C19_run_tofloat.
+
+(** run by run: two word sizes, the same answer *)
+Theorem C19_word_runs_independent :
+  forall w1 w2 : Z,
+  8 <= w1 ->
+  8 <= w2 ->
+  w1 mod 2 = 0 ->
+  w2 mod 2 = 0 ->
+  (forall a b : Z,
+  wr_mul w1 a b = wr_mul w2 a b /\
+  wr_add w1 a b = wr_add w2 a b /\
+  wr_sub w1 a b = wr_sub w2 a b /\
+  wr_divrem w1 a b = wr_divrem w2 a b /\ wr_and w1 a b = wr_and w2 a b /\ wr_or w1 a b = wr_or w2 a b /\ wr_xor w1 a b = wr_xor w2 a b) /\
+  (forall a : Z, wr_sqr w1 a = wr_sqr w2 a /\ wr_bitlen w1 a = wr_bitlen w2 a /\ wr_tz w1 a = wr_tz w2 a /\ wr_ones w1 a = wr_ones w2 a) /\
+  (forall a n : Z, 0 <= n -> wr_pow w1 a n = wr_pow w2 a n /\ wr_shl w1 a n = wr_shl w2 a n /\ wr_shr w1 a n = wr_shr w2 a n) /\
+  (forall (r v : Z) (s : list Z), wr_tostr w1 r v = wr_tostr w2 r v /\ wr_fromstr w1 r s = wr_fromstr w2 r s) /\
+  (forall x : Z, 0 <= x -> wr_sqrt w1 x = wr_sqrt w2 x) /\
+  (forall m x y e : Z, 1 <= m -> 0 <= e -> ws_modmul w1 m x y = ws_modmul w2 m x y /\ ws_modpow w1 m x e = ws_modpow w2 m x e).
+Proof. exact word_runs_independent. Qed.
+Print Assumptions C19_word_runs_independent.
+
+(** std vs no_std: the estimate-then-correct loops of ilog return the same exponent for ANY two first guesses *)
+Theorem C19_ilog_large_estimator_independent :
+  forall target base : Z,
+  2 <= base ->
+  1 <= target ->
+  forall (fuel1 fuel2 : nat) (est1 est2 e1 p1 e2 p2 : Z),
+  log_large_asis fuel1 est1 target base = Ok (e1, p1) -> log_large_asis fuel2 est2 target base = Ok (e2, p2) -> e1 = e2 /\ p1 = p2.
+Proof. exact ilog_large_estimator_independent. Qed.
+Print Assumptions C19_ilog_large_estimator_independent.
+
+Theorem C19_ilog_dword_estimator_independent :
+  forall target base : Z,
+  2 <= base ->
+  1 <= target ->
+  forall (fuel1 fuel2 : nat) (D1 D2 est1 est2 e1 p1 e2 p2 : Z),
+  target < D1 ->
+  target < D2 ->
+  0 <= est1 ->
+  0 <= est2 ->
+  log_dword_asis fuel1 D1 est1 target base = Ok (e1, p1) -> log_dword_asis fuel2 D2 est2 target base = Ok (e2, p2) -> e1 = e2 /\ p1 = p2.
+Proof. exact ilog_dword_estimator_independent. Qed.
+Print Assumptions C19_ilog_dword_estimator_independent.
+
+(** ... and any two word sizes (the largest power of the base in a word differs) *)
+Theorem C19_ilog_word_base_estimator_and_ws_independent :
+  forall target base : Z,
+  2 <= base ->
+  1 <= target ->
+  forall w1 w2 : Z,
+  0 < w1 ->
+  0 < w2 ->
+  forall wexp1 wexp2 : Z,
+  0 <= wexp1 ->
+  0 <= wexp2 ->
+  base ^ wexp1 < 2 ^ w1 ->
+  base ^ wexp2 < 2 ^ w2 ->
+  forall (fuel1 fuel2 : nat) (est1 est2 e1 p1 e2 p2 : Z),
+  2 <= wlen w1 target ->
+  2 <= wlen w2 target ->
+  0 <= est1 ->
+  0 <= est2 ->
+  log_word_base_asis fuel1 w1 est1 wexp1 target base = Ok (e1, p1) ->
+  log_word_base_asis fuel2 w2 est2 wexp2 target base = Ok (e2, p2) -> e1 = e2 /\ p1 = p2.
+Proof. exact ilog_word_base_estimator_and_ws_independent. Qed.
+Print Assumptions C19_ilog_word_base_estimator_and_ws_independent.
+
+(** Newton from any positive first guess *)
+Theorem C19_nth_root_guess_independent :
+  forall x n : Z,
+  0 < x ->
+  2 <= n ->
+  forall (fuel1 fuel2 : nat) (g1 g2 r1 r2 : Z),
+  0 < g1 -> 0 < g2 -> newton_root_from fuel1 x n g1 = Ok r1 -> newton_root_from fuel2 x n g2 = Ok r2 -> r1 = r2.
+Proof. exact nth_root_guess_independent. Qed.
+Print Assumptions C19_nth_root_guess_independent.
+
+(** FBig comparison for any two sound digit estimates (digits_ub comes from log2_bounds) *)
+Theorem C19_float_cmp_estimator_independent :
+  forall B : Z,
+  2 <= B ->
+  forall du1 du2 : Z -> Z,
+  digits_ub_sound B du1 ->
+  digits_ub_sound B du2 ->
+  forall (a : bool) (l r : frepr),
+  FloatOrdProofs.fwf l -> FloatOrdProofs.fwf r -> repr_cmp_same_base B du1 a l r = repr_cmp_same_base B du2 a l r.
+Proof. exact float_cmp_estimator_independent. Qed.
+Print Assumptions C19_float_cmp_estimator_independent.
+
+(** FBig + / -: with either estimate the correctly rounded exact sum *)
+Theorem C19_float_add_sub_estimator_contract :
+  forall B : Z,
+  2 <= B ->
+  forall du1 du2 : Z -> Z,
+  (forall s : Z, dlen B s <= du1 s) ->
+  (forall s : Z, dlen B s <= du2 s) ->
+  forall (p : Z) (m : mode) (s1 e1 s2 e2 : Z),
+  1 <= p ->
+  dlen B s1 <= p ->
+  dlen B s2 <= p ->
+  AddModelProof.rounded_sum B p m (AddModelProof.exact_sum B s1 e1 s2 e2 Positive) (Z.min e1 e2) (ctx_add B du1 p m s1 e1 s2 e2) /\
+  AddModelProof.rounded_sum B p m (AddModelProof.exact_sum B s1 e1 s2 e2 Positive) (Z.min e1 e2) (ctx_add B du2 p m s1 e1 s2 e2) /\
+  AddModelProof.rounded_sum B p m (AddModelProof.exact_sum B s1 e1 s2 e2 Negative) (Z.min e1 e2) (ctx_sub B du1 p m s1 e1 s2 e2) /\
+  AddModelProof.rounded_sum B p m (AddModelProof.exact_sum B s1 e1 s2 e2 Negative) (Z.min e1 e2) (ctx_sub B du2 p m s1 e1 s2 e2).
+Proof. exact float_add_sub_estimator_contract. Qed.
+Print Assumptions C19_float_add_sub_estimator_contract.
+
+(** human-readable serde of UBig/IBig: Display, then from_str_with_radix_prefix *)
+Theorem C19_json_int_roundtrip :
+  forall (v : Z) (t : list Z), json_int_text v = Ok t -> json_int_de true t = Ok v /\ (0 <= v -> json_int_de false t = Ok v).
+Proof. exact json_int_roundtrip. Qed.
+Print Assumptions C19_json_int_roundtrip.
+
+(** the as-is printer / parser at any word size write / accept the same texts *)
+Theorem C19_json_int_any_word_size :
+  forall w : Z,
+  0 < w ->
+  w mod 2 = 0 ->
+  36 < Bw w ->
+  (forall v : Z, json_int_text_asis w v = json_int_text v) /\ (forall (sg : bool) (s : list Z), json_int_de_asis w sg s = json_int_de sg s).
+Proof. exact json_int_any_word_size. Qed.
+Print Assumptions C19_json_int_any_word_size.
+
+Theorem C19_json_int_asis_roundtrip :
+  forall w : Z,
+  0 < w ->
+  w mod 2 = 0 ->
+  36 < Bw w ->
+  forall (v : Z) (t : list Z),
+  json_int_text_asis w v = Ok t -> json_int_de_asis w true t = Ok v /\ (0 <= v -> json_int_de_asis w false t = Ok v).
+Proof. exact json_int_asis_roundtrip. Qed.
+Print Assumptions C19_json_int_asis_roundtrip.
+
+(** RBig: n or n/d, Repr::from_str_with_radix_prefix, zero guard, reduce *)
+Theorem C19_json_rbig_roundtrip :
+  forall (n d : Z) (t : list Z), rat_canon n d -> json_rat_text n d = Ok t -> json_rat_de false t = Ok (n, d).
+Proof. exact json_rbig_roundtrip. Qed.
+Print Assumptions C19_json_rbig_roundtrip.
+
+(** every accepted text decodes to lowest terms with a positive denominator *)
+Theorem C19_json_rbig_de_canonical :
+  forall (t : list Z) (n d : Z), json_rat_de false t = Ok (n, d) -> rat_canon n d.
+Proof. exact json_rbig_de_canonical. Qed.
+Print Assumptions C19_json_rbig_de_canonical.
+
+(** FBig / Repr: the infinities round trip in every base *)
+Theorem C19_json_float_inf_roundtrip :
+  forall B e : Z, e <> 0 -> json_float_de B (json_float_text B 0 e) = Ok (0, Z.sgn e).
+Proof. exact json_float_inf_roundtrip. Qed.
+Print Assumptions C19_json_float_inf_roundtrip.
+
+(** finite floats in normal form round trip outside the class of the open finding fbig_json_inf_collision *)
+Theorem C19_json_float_roundtrip :
+  forall B s e : Z,
+  2 <= B <= 36 ->
+  s mod B <> 0 \/ s = 0 /\ e = 0 -> in_isize e = true -> json_inf_collision B s e = false -> json_float_de B (json_float_text B s e) = Ok (s, e).
+Proof. exact json_float_roundtrip. Qed.
+Print Assumptions C19_json_float_roundtrip.
+
+(** OPEN finding: in base 36 the number 24171 is written "inf" and read back as +infinity *)
+Theorem C19_json_float_inf_collision_refuted :
+  json_inf_collision 36 24171 0 = true /\
+  json_float_text 36 24171 0 = json_float_text 36 0 1 /\
+  json_float_de 36 (json_float_text 36 24171 0) = Ok (0, 1) /\
+  json_float_de 36 (json_float_text 36 (-24171) 0) = Ok (0, -1) /\
+  json_inf_collision 10 24171 0 = false /\ json_float_de 10 (json_float_text 10 24171 0) = Ok (24171, 0).
+Proof. exact json_float_inf_collision_refuted. Qed.
+Print Assumptions C19_json_float_inf_collision_refuted.
+
+(** the class is exactly: base >= 24, exponent 0, digits i n f *)
+Theorem C19_json_inf_collision_class :
+  forall B s e : Z, 2 <= B <= 36 -> json_inf_collision B s e = true -> 24 <= B /\ e = 0 /\ Z.abs s = 18 * B * B + 23 * B + 15.
+Proof. exact json_inf_collision_class. Qed.
+Print Assumptions C19_json_inf_collision_class.
+
+(** hence unconditional below base 24 *)
+Theorem C19_json_float_roundtrip_small_base :
+  forall B s e : Z, 2 <= B < 24 -> s mod B <> 0 \/ s = 0 /\ e = 0 -> in_isize e = true -> json_float_de B (json_float_text B s e) = Ok (s, e).
+Proof. exact json_float_roundtrip_small_base. Qed.
+Print Assumptions C19_json_float_roundtrip_small_base.
+
+(** ---- the architecture selection, over the fragment coq/gen/ArchGen.v regenerated from integer/src/arch on every run:
+         whatever cfg values are set, cfg_if! selects an architecture whose Word is 16, 32 or 64 bits wide (DoubleWord
+         twice that): every premise the word-size-generic theorems put on [w] holds in every build *)
+From Coq Require Import String.
+From Dashu Require Import Serde.ArchModel Serde.ArchSelect Serde.ArchProofs.
+From DashuGen Require Import ArchGen.
+Theorem C19_arch_word_admissible : forall c : cfg, exists w,
+  arch_word_bits c = Some w /\ (w = 16 \/ w = 32 \/ w = 64) /\ 8 <= w /\ w mod 8 = 0 /\ w mod 2 = 0 /\ 36 < 2 ^ w.
+Proof. exact arch_word_admissible. Qed.
+Print Assumptions C19_arch_word_admissible.
+
+Theorem C19_arch_force_bits : forall c : cfg,
+  (cfg_has c (KForceBits, "16"%string) = true -> arch_word_bits c = Some 16) /\
+  (cfg_has c (KForceBits, "16"%string) = false -> cfg_has c (KForceBits, "32"%string) = true -> arch_word_bits c = Some 32) /\
+  (cfg_has c (KForceBits, "16"%string) = false -> cfg_has c (KForceBits, "32"%string) = false ->
+   cfg_has c (KForceBits, "64"%string) = true -> arch_word_bits c = Some 64).
+Proof. exact arch_force_bits. Qed.
+Print Assumptions C19_arch_force_bits.
+
+Theorem C19_arch_x86_64_default : forall c : cfg,
+  (forall v, cfg_has c (KForceBits, v) = false) -> cfg_has c (KTargetArch, "x86"%string) = false ->
+  cfg_has c (KTargetArch, "x86_64"%string) = true -> arch_word_bits c = Some 64.
+Proof. exact arch_x86_64_default. Qed.
+Print Assumptions C19_arch_x86_64_default.
+
+(** arch/generic/add.rs as regenerated = the carry primitives C01's model is written with, any word size *)
+Theorem C19_arch_add_with_carry : forall w a b c, 0 < w -> 0 <= a < B w -> 0 <= b < B w ->
+  add_with_carry_gen w a b c = add_with_carry w a b c.
+Proof. exact add_with_carry_gen_spec. Qed.
+Print Assumptions C19_arch_add_with_carry.
+
+Theorem C19_arch_sub_with_borrow : forall w a b c, 0 < w -> 0 <= a < B w -> 0 <= b < B w ->
+  sub_with_borrow_gen w a b c = sub_with_borrow w a b c.
+Proof. exact sub_with_borrow_gen_spec. Qed.
+Print Assumptions C19_arch_sub_with_borrow.
+
+(** Relaxed: the canonical form is the fixed point of reduce2 *)
+Theorem C19_json_relaxed_roundtrip : forall n d t, 0 < d -> rat_reduce2 n d = (n, d) ->
+  json_rat_text n d = Ok t -> json_rat_de true t = Ok (n, d).
+Proof. exact json_relaxed_roundtrip. Qed.
+Print Assumptions C19_json_relaxed_roundtrip.
